@@ -1174,9 +1174,49 @@ Proof.
     + eapply Stopped_nth; eauto.
 Qed.
 
-Lemma sched_step_k cfg cfg' : KInv cfg -> sched_step cfg = Some cfg' -> Stopped (ths cfg') -> KInv cfg'.
+Lemma spurious_k sh ths w wt timed :
+  KG sh ths -> KW sh ths -> Stopped ths -> nth_error ths w = Some wt -> status wt = TParked timed ->
+  KG sh (set_th ths w (mkTh (code wt) (calls wt) (lo_to (lo wt) false) TWoken)) /\
+  KW sh (set_th ths w (mkTh (code wt) (calls wt) (lo_to (lo wt) false) TWoken)) /\
+  Stopped (set_th ths w (mkTh (code wt) (calls wt) (lo_to (lo wt) false) TWoken)).
 Proof.
-  intros (HG & HW & HS) H S'. split; [|split; [|exact S']]; revert H; unfold sched_step.
+  intros HG HW HS HN St. set (wt' := mkTh (code wt) (calls wt) (lo_to (lo wt) false) TWoken).
+  split; [|split].
+  - destruct (nth_error_split _ _ HN) as (a & b & E & La). subst ths. rewrite <- La. rewrite set_th_mid.
+    destruct HG as [A B C D AW]. constructor.
+    + exact A.
+    + eapply J_sheq; [| | | |eapply J_replace; [exact B| |]]; sh_simpl; auto; cbn [status wt'].
+      * discriminate.
+      * intros _. left. reflexivity.
+    + intros t0 rs E. eapply Nfact_replace; [exact (C _ _ E)| |]; cbn [status wt']; [rewrite St; discriminate|discriminate].
+    + intros o H. sh_simpl. rewrite (mid_length a _ wt). apply D. exact H.
+    + eapply AWs_sheq; [reflexivity|]. eapply AWs_replace; [exact AW|]. unfold okst. rewrite St. intros [X|X]; discriminate X.
+  - intros u x Hu. rewrite (nth_set _ _ _ _ _ HN) in Hu. destruct (Nat.eqb u w) eqn:E.
+    + apply Nat.eqb_eq in E. subst u. injection Hu as <-.
+      pose proof (HW w wt HN) as Ww. unfold Wth in *. rewrite St in Ww. cbn [status code lo wt']. sh_simpl. lo_simpl.
+      destruct Ww as (W1 & W2 & W3 & W4). repeat split; auto.
+    + eapply Wth_stable; [eapply Stopped_nth; eauto|apply Rely_refl|apply HW; exact Hu].
+  - intros x Hx. destruct (In_set_th _ _ _ _ _ HN Hx) as [->|(u & _ & Nu)].
+    + unfold stopped. cbn [status wt']. exact I.
+    + eapply Stopped_nth; eauto.
+Qed.
+
+Lemma unnotified_k cfg tok c : KInv cfg -> unnotified cfg tok = Some c -> KInv c.
+Proof.
+  intros (HG & HW & HS) H. unfold unnotified in H.
+  destruct (Nat.leb 2000 tok).
+  - destruct (nth_error (ths cfg) (tok - 2000)) as [wt|] eqn:EN; [|discriminate].
+    destruct (status wt) as [|timed| |] eqn:Est; try discriminate. injection H as <-. unfold KInv. cbn [shs ths].
+    apply (spurious_k (shs cfg) (ths cfg) (tok - 2000) wt timed HG HW HS EN Est).
+  - destruct (Nat.leb 1000 tok); [|discriminate].
+    destruct (nth_error (ths cfg) (tok - 1000)) as [wt|] eqn:EN; [|discriminate].
+    destruct (status wt) as [|timed| |] eqn:Est; try discriminate. destruct timed; [|discriminate]. injection H as <-. unfold KInv. cbn [shs ths].
+    apply (timeout_k (shs cfg) (ths cfg) (tok - 1000) wt HG HW HS EN Est).
+Qed.
+
+Lemma sched_step0_k cfg cfg' : KInv cfg -> sched_step0 cfg = Some cfg' -> Stopped (ths cfg') -> KInv cfg'.
+Proof.
+  intros (HG & HW & HS) H S'. split; [|split; [|exact S']]; revert H; unfold sched_step0.
   all: destruct (dead cfg); [discriminate|].
   all: destruct (next_from_schedule cfg (sched cfg)) as [pick rest] eqn:EN.
   all: set (cfg1 := mkCfg (shs cfg) (ths cfg) rest false).
@@ -1199,6 +1239,15 @@ Proof.
   all: destruct (all_finished cfg1); [discriminate|]; intros E; injection E as <-; cbn [shs ths].
   - apply KG_log; [discriminate|exact HG].
   - intros u x Hu. eapply Wth_stable; [eapply Stopped_nth; eauto|apply Rely_log_any|apply HW; exact Hu].
+Qed.
+
+Lemma sched_step_k cfg cfg' : KInv cfg -> sched_step cfg = Some cfg' -> Stopped (ths cfg') -> KInv cfg'.
+Proof.
+  intros HK. unfold sched_step. destruct (dead cfg) eqn:Ed; [discriminate|].
+  assert (H0 : sched_step0 cfg = Some cfg' -> Stopped (ths cfg') -> KInv cfg') by (apply sched_step0_k; exact HK).
+  destruct (sched cfg) as [|tok rest]; [exact H0|].
+  destruct (unnotified _ tok) as [c|] eqn:EU; [|exact H0].
+  intros E _. injection E as <-. eapply unnotified_k; [|exact EU]. exact HK.
 Qed.
 
 (* ---------- every reachable configuration ---------- *)
@@ -1406,3 +1455,27 @@ Theorem no_mutex_deadlock_every_schedule progs schedule n u th :
   nth_error (ths cfg) u = Some th -> status th = TRun -> code th <> [] ->
   exists v, th_enabled cfg v = true.
 Proof. intros cfg HS. apply no_mutex_deadlock. apply wake_invariant_every_schedule. exact HS. Qed.
+
+(* ---------- waits that end without a notification ---------- *)
+(* schedule token 2000 + w: the wait of thread w wakes up spuriously.  Here thread 0 parks, is woken with no
+   notification and no timeout, re-acquires the mutex, evaluates the predicate again (queue still empty), parks again, and
+   is released by the enqueue of thread 1 — the theorems above quantify over every schedule, these tokens included *)
+Example spurious_wake_run :
+  let c0 := mkCfg sh0 (start_threads [[AWait]; [AEnqueue 1 11%Z]])
+                  ([0; 0; 0; 0; 0; 2000; 0; 0; 0; 0; 0; 0; 0] ++ repeat 1 12 ++ repeat 0 10) false in
+  map status (ths (run_sched 5 c0)) = [TParked false; TRun] /\
+  map status (ths (run_sched 6 c0)) = [TWoken; TRun] /\
+  map status (ths (run_sched 10 c0)) = [TParked false; TRun] /\
+  stopped_alongb 100 c0 = true /\ all_finished (run_sched 100 c0) = true.
+Proof. vm_compute. repeat split; reflexivity. Qed.
+
+(* schedule token 1000 + w: the timed wait of thread w times out now, although another thread can run *)
+Example timeout_while_others_run :
+  let c1 := mkCfg sh0 (start_threads [[AWaitFor]; [AEnqueue 1 11%Z]])
+                  ([0; 0; 0; 0; 0; 1; 1; 1000] ++ repeat 0 10 ++ repeat 1 12) false in
+  map status (ths (run_sched 7 c1)) = [TParked true; TRun] /\
+  th_enabled (run_sched 7 c1) 1 = true /\
+  map status (ths (run_sched 8 c1)) = [TWoken; TRun] /\
+  In (CRes 0 false) (clog (shs (run_sched 100 c1))) /\
+  stopped_alongb 100 c1 = true /\ all_finished (run_sched 100 c1) = true.
+Proof. vm_compute. repeat split; try reflexivity. tauto. Qed.
